@@ -78,9 +78,13 @@ func (c19) Gen(rs uint64, tier string, race bool) interface{} {
 		n = r.Range(2, 4)
 		l = r.Pick(255, 256, 257, 999, 1000, 1001, 1024, 1500, 2100)
 	}
+	extra := "-"
+	if r.Chance(0.06) {
+		extra = "-?" // missing data as Phylip and Nexus files write it: some queries refuse it - and leave the input alone
+	}
 	for i := 0; i < n; i++ {
 		a.Names = append(a.Names, fmt.Sprintf("s%d", i))
-		a.Seqs = append(a.Seqs, genResidues(r, l, a.Alphabet, lower, "-", 0.1))
+		a.Seqs = append(a.Seqs, genResidues(r, l, a.Alphabet, lower, extra, 0.1))
 	}
 	if r.Chance(0.1) {
 		// names with blanks and punctuation, some of which a "clean names" step would make equal
